@@ -257,6 +257,22 @@ class Program:
                 return Ptr(inner.oid, 0)
             if desc[0] == 'const':
                 return desc[1]
+            if desc[0] == 'cstruct':
+                sdef = self.structs.get(desc[1])
+                if sdef is None:
+                    raise Unsupported('unknown struct %s' % desc[1])
+                fields = {}
+                for f, t in sdef:
+                    t = t.strip()
+                    if t in ('bool', '_Bool'):
+                        fields[f] = z3.Bool('%s.%s' % (name, f))
+                    elif t in ('seq_t', 'double', 'float'):
+                        fields[f] = z3.Const('%s.%s' % (name, f), Val)
+                    else:
+                        fields[f] = z3.Int('%s.%s' % (name, f))
+                oid = st.new_oid('S')
+                st.heap[oid] = RecObj(desc[1], fields, origin=origin, name=name)
+                return Ptr(oid, 0)
         if isinstance(desc, dict):
             return {k: self.make_value(ex, d, '%s_%s' % (name, k), st, origin) for k, d in desc.items()}
         if isinstance(desc, str):
@@ -282,6 +298,25 @@ class Program:
                 st.heap[oid] = ArrObj(kind, arr=z3.Array(name, IntS, kind_sort(kind)), length=n,
                                       origin=origin, name=name, pykind=pyk)
                 return Ref(oid)
+            if desc in ('cptr:val', 'cptr:int'):
+                kind = desc.split(':')[1]
+                n = z3.Int(name + '_size')
+                st.assume(n >= 0)
+                oid = st.new_oid('A')
+                st.heap[oid] = ArrObj(kind, arr=z3.Array(name, IntS, kind_sort(kind)), length=n,
+                                      origin=origin, name=name, pykind='cblock')
+                return Ptr(oid, 0)
+            if desc == 'cptrs':
+                # seq_t **ptrs: an array of pointers to separate series blocks
+                cnt = z3.Int(name + '_size')
+                st.assume(cnt >= 0)
+                S = z3.Array(name, IntS, z3.ArraySort(IntS, Val))
+                lenfn = z3.Function(name + '_rowsize', IntS, IntS)
+                oid = st.new_oid('P')
+                st.heap[oid] = ArrObj('rows', arr=(S, lenfn), length=cnt, origin=origin, name=name, pykind='cblock')
+                return Ptr(oid, 0)
+            if desc == 'cnull':
+                return Ptr(None, 0)
             if desc in ('matrix', 'mat:val'):
                 r, c = z3.Int(name + '_rows'), z3.Int(name + '_cols')
                 st.assume(z3.And(r >= 0, c >= 0))
